@@ -5,9 +5,13 @@ import Mathlib.Analysis.Real.Sqrt
 /-! # C05 — linear resampling returns the piecewise-linear interpolant of the track
 
 Property theorems only (helper lemmas are in `Lemmas/Resample.lean`). The model
-(`Model/Resample.lean`) mirrors `prepareTimeSampling`, `__resampleTemporal`, `__resampleSpatial` and
-`Track.resample`; a fix is `(x, y, z, t)` with `t = timestamp.toAbsTime()`. All statements are over an
-arbitrary linearly ordered field (ℚ, ℝ): for every track, every list of instants, every step.
+(`Model/Resample.lean`) mirrors `prepareTimeSampling`, `__resampleTemporal`, `__resampleSpatial`, the dispatcher
+`interpolation.resample`, the front end `Track.resample` and the callers that delegate to linear resampling
+(`track // ref`, `track ** n`, `track * k`, `sample`, `synchronize`, `TrackCollection.resample`); a fix is
+`(x, y, z, t)` with `t = timestamp.toAbsTime()`; the stamp of an output is the C03 model (`stampOf`). All
+statements are over an arbitrary linearly ordered field (ℚ, ℝ): for every track, every list of instants, every step.
+Sections: T1–T4 (temporal / spatial), D1–D4 (degenerate requests), S1 (millisecond stamps), T3d (pauses),
+O1–O4 (callers).
 
 `sampleT P t` / `sampleS P S s` (Lemmas) are the *specification* samples: the point of the leg
 `r = firstGE v V` — the number of abscissas `< v`, i.e. the first index with `v ≤ V[r]` — at fraction
